@@ -41,6 +41,25 @@ class PageFeatureProcessor:
         if page_df_height == 0:
             return page_attrs
 
+        # Matrix-shaped attributes are indexed by absolute row: keep only the
+        # rows that belong to this page so that page-relative lookups stay aligned
+        if page.start_row:
+            for attr_name in type(page_attrs).model_fields:
+                value = getattr(page_attrs, attr_name)
+                if (
+                    isinstance(value, list)
+                    and len(value) > 1
+                    and isinstance(value[0], list)
+                ):
+                    setattr(
+                        page_attrs,
+                        attr_name,
+                        [
+                            value[(page.start_row + r) % len(value)]
+                            for r in range(page_df_height)
+                        ],
+                    )
+
         # Clear border_first and border_last from being broadcast to all rows
         if hasattr(page_attrs, "border_first") and page_attrs.border_first:
             page_attrs.border_first = None
